@@ -3,6 +3,7 @@ import UberjobModel.Lemmas.EngineComplete
 import UberjobModel.Lemmas.Queues
 import UberjobModel.Lemmas.GraphWF
 import UberjobModel.Lemmas.EngineExamples
+import UberjobModel.Lemmas.ExecNeeded
 /-!
 # C04 — each needed call runs exactly once (engine part)
 
@@ -96,6 +97,51 @@ theorem C04_exact {g : Graph} (hg : g.WF) {cfg : Cfg} (hw : 1 ≤ cfg.workers) {
   have all_okd : ∀ y, y ∈ g.nodes → y ∈ s.okd := fun y hy => (enq_okd y (key (rank y) y (Nat.le_refl _) hy)).1
   refine ⟨fun x => ⟨C04_only_graph_nodes hg hr x, fun hx => hi.okBegun x (all_okd x hx)⟩,
           fun x => ⟨fun hx => C04_only_graph_nodes hg hr x (hi.okBegun x hx), all_okd x⟩⟩
+
+/-! ### with a registry: exactly the NEEDED calls run
+
+`Exec.Needed P j` is stated on the user's plan: `j` is the requested output (and has no store), or a stored value that
+has to be rebuilt, or — having no store — feeds directly a node without a store that is needed, or an out-of-date
+registered node (a stored value to rebuild, a source to refresh).  Nothing else: in particular nothing that only an
+up-to-date stored value or source depends on. -/
+
+open Uberjob.Phys Uberjob.Exec in
+/-- In EVERY reachable state of every schedule (failures, interrupts included) a user call has begun only if it is needed. -/
+theorem C04_only_needed {P : Input} (hP : P.WF) {cfg : Cfg} {s : St} (h : Reach (engineGraph P) cfg s) {j : Nat}
+    (hjn : j ∈ P.nodes) (hl : P.lits.contains j = false) (hb : code (.orig j) ∈ s.begun) : Needed P j :=
+  (needed_iff_kept hP hjn hl).mp (C04_only_graph_nodes (engine_wf P) h _ hb)
+
+open Uberjob.Phys Uberjob.Exec in
+/-- **A run that returns normally has executed exactly the needed calls, each once.** -/
+theorem C04_runs_exactly_needed {P : Input} (hP : P.WF) {cfg : Cfg} (hw : 1 ≤ cfg.workers) {s : St}
+    (h : Reach (engineGraph P) cfg s) (hc : s.coord = .returned false) (hf : s.failed = []) {j : Nat}
+    (hjn : j ∈ P.nodes) (hl : P.lits.contains j = false) :
+    (code (.orig j) ∈ s.okd ↔ Needed P j) ∧ s.begun.Nodup := by
+  have hall := (C04_exact (engine_wf P) hw h (rank := id) (engine_ranked hP) hc hf).2
+  exact ⟨(hall _).trans (needed_iff_kept hP hjn hl), C04_once (engine_wf P) h⟩
+
+/-! Non-vacuity: source 0 → stored 1 (up to date) → call 2 → stored 3 (out of date); call 4 also consumes 1; no output.
+    The call 2 is needed (it feeds the stored value that is rebuilt), the stored value 3 is rebuilt; the up-to-date stored
+    value 1 and the call 4 nobody asked for are not. -/
+def exN : Uberjob.Phys.Input :=
+  ⟨[0, 1, 2, 3, 4], [], [⟨0, 1, .pos 0⟩, ⟨1, 2, .pos 0⟩, ⟨2, 3, .pos 0⟩, ⟨1, 4, .pos 0⟩],
+   [(0, true), (1, false), (3, false)], [3], none⟩
+
+open Uberjob.Phys Uberjob.Exec in
+example : Needed exN 2 ∧ Needed exN 3 :=
+  ⟨.feedsStale (k := 3) (key := .pos 0) (sk := false) (by decide) (by decide) (by decide) (by decide),
+   .rebuilt (by decide) (by decide)⟩
+
+open Uberjob.Phys Uberjob.Exec in
+example : ¬ Needed exN 4 ∧ ¬ Needed exN 1 := by
+  have hwf : exN.WF := by constructor <;> decide
+  constructor
+  · intro h
+    have := (needed_iff_kept hwf (by decide) (by decide)).mpr h
+    revert this; decide
+  · intro h
+    have := (needed_iff_kept hwf (by decide) (by decide)).mpr h
+    revert this; decide
 
 /-! ### the random bag (`scheduler='random'`) keeps every item exactly once
 
